@@ -115,8 +115,8 @@ func (x *lx) usesCall(name string) bool {
 	return false
 }
 
-func v(i int) *lx                  { return &lx{op: "var", idx: i} }
-func c(val octosql.Value) *lx      { return &lx{op: "const", val: val} }
+func v(i int) *lx             { return &lx{op: "var", idx: i} }
+func c(val octosql.Value) *lx { return &lx{op: "const", val: val} }
 func call(n string, as ...*lx) *lx {
 	if n == "*" {
 		for _, a := range as {
@@ -597,6 +597,238 @@ func (g *engine) aggregateCase(r *lib.Rng, name string, base, xt octosql.Type, t
 	}
 }
 
+// ---- structured values: objects, lists of objects, tuples.  Field access (on columns whose object fields are NOT in
+// alphabetical order too, and on objects built by multi-column subquery expressions in SELECT order), COALESCE over
+// objects / lists / tuples whose nested shapes differ, list indexing, tuple construction.  Outside the Coq expression
+// fragment: typechecked, materialised and evaluated by the real code; every value is checked against the full static
+// type (element and field types, recursively) by exprh.Conforms and by `conforms` in Coq (C8S cases). ----
+
+type objCase struct {
+	class string // known-finding class the case falls in ("" = none)
+	what  string
+	types []octosql.Type
+	build func(env *exprh.Env) logical.Expression
+}
+
+func (g *engine) objectCase(r *lib.Rng, oc objCase, nrows int) {
+	cf := g.cf
+	env := exprh.NewEnv(oc.types)
+	js := map[string]interface{}{"family": "objects", "expr": oc.what}
+	colTypes := make([]string, len(oc.types))
+	for i, t := range oc.types {
+		colTypes[i] = t.String()
+	}
+	js["column_types"] = colTypes
+	pe, msg, panicked := env.Typecheck(oc.build(env))
+	if panicked {
+		cf.Count("objects:typecheck_rejected")
+		_ = msg
+		return
+	}
+	js["static_type"] = pe.Type.String()
+	ex, merr, mp := env.Materialize(pe)
+	if merr != nil || mp != nil {
+		cf.Count("objects:materialize_failed")
+		return
+	}
+	rows := exprh.EdgeRows(oc.types, 6)
+	for k := 0; k < nrows; k++ {
+		row := make([]octosql.Value, len(oc.types))
+		for i, t := range oc.types {
+			row[i] = exprh.GenOfType(r, t, true)
+		}
+		rows = append(rows, row)
+	}
+	if len(oc.types) == 0 {
+		rows = [][]octosql.Value{{}}
+	}
+	var vals []string
+	var runsJS []interface{}
+	var bads []string
+	for _, row := range rows {
+		obs := exprh.Eval(ex, [][]octosql.Value{row})
+		runsJS = append(runsJS, map[string]interface{}{"row": lib.ValuesJSON(row), "observed": obs.JSON()})
+		switch obs.Kind {
+		case 0:
+			vals = append(vals, lib.CoqValue(obs.Val))
+			cf.Count("objects:value_" + obs.Val.TypeID.String())
+			if !exprh.Conforms(obs.Val, pe.Type) {
+				bads = append(bads, fmt.Sprintf("%s over columns %v has static type %s but evaluated to %s on row %s",
+					oc.what, colTypes, pe.Type.String(), obs.Val.String(), rowString(row)))
+			}
+		case 1:
+			cf.Count("objects:error")
+		default:
+			cf.Count("objects:panic")
+		}
+	}
+	js["runs"] = runsJS
+	idx := cf.Add(fmt.Sprintf("(C8S %s [%s])", exprh.Dty(pe.Type), strings.Join(vals, "; ")), js, len(vals) > 0)
+	for _, b := range bads {
+		cf.Violation(idx, b, oc.class)
+	}
+	if oc.class != "" {
+		cf.SetClass(idx, oc.class)
+		cf.Count("objects:in_class_" + oc.class)
+	}
+	cf.Count("family:objects")
+	cf.Count("objects:" + strings.SplitN(oc.what, " ", 2)[0])
+}
+
+func (g *engine) objectSlice(rng *lib.Rng, nrows int) {
+	N := octosql.Null
+	I, F, S, B := octosql.Int, octosql.Float, octosql.String, octosql.Boolean
+	st := func(names string, ts ...octosql.Type) octosql.Type {
+		return exprh.StructOf(strings.Split(names, ","), ts)
+	}
+	nullable := func(t octosql.Type) octosql.Type { return octosql.TypeSum(t, N) }
+	var cases []objCase
+	access := func(obj func(*exprh.Env) logical.Expression, fields ...string) func(*exprh.Env) logical.Expression {
+		return func(env *exprh.Env) logical.Expression {
+			x := obj(env)
+			for _, f := range fields {
+				x = logical.NewObjectFieldAccess(x, f)
+			}
+			return x
+		}
+	}
+	col := func(i int) func(*exprh.Env) logical.Expression {
+		return func(env *exprh.Env) logical.Expression { return env.Var(i) }
+	}
+
+	// 1. field access on object columns: sorted and unsorted field orders, nested, nullable, union with a scalar
+	inner := st("y,x", S, I)
+	structs := []struct {
+		t      octosql.Type
+		fields [][]string
+	}{
+		{st("a,b", I, S), [][]string{{"a"}, {"b"}}},
+		{st("b,a", S, F), [][]string{{"a"}, {"b"}}},
+		{st("c,a,b", B, nullable(F), inner), [][]string{{"a"}, {"b"}, {"c"}, {"b", "x"}, {"b", "y"}}},
+		{st("z,m,a,k", I, S, F, nullable(exprh.ListOf(I))), [][]string{{"z"}, {"m"}, {"a"}, {"k"}}},
+	}
+	for _, sc := range structs {
+		for ti, ct := range []octosql.Type{sc.t, nullable(sc.t), octosql.TypeSum(nullable(sc.t), I)} {
+			for _, fs := range sc.fields {
+				class := ""
+				if ti == 2 && fs[0] != sc.t.Struct.Fields[0].Name {
+					// finding on main (fix c9d25fa pending): the object sits in a union with another non-NULL alternative
+					// and the accessed field is not the object's first field
+					class = "field-access-object-in-wider-union"
+				}
+				cases = append(cases, objCase{class: class, what: fmt.Sprintf("field_access c0->%s  (column typing %d)", strings.Join(fs, "->"), ti),
+					types: []octosql.Type{ct}, build: access(col(0), fs...)})
+			}
+		}
+	}
+
+	// 2. objects built by multi-column subquery expressions keep SELECT order: (SELECT ... )[i]->field
+	for _, order := range [][]string{{"b", "a"}, {"a", "b"}, {"name", "id", "age"}, {"id", "age", "name"}} {
+		order := order
+		ftypes := map[string]octosql.Type{"a": F, "b": S, "name": S, "id": F, "age": nullable(I)}
+		mk := func() *memSource {
+			var fields []physical.SchemaField
+			mapping := map[string]string{}
+			for _, n := range order {
+				fields = append(fields, physical.SchemaField{Name: "sub." + n + "_0", Type: ftypes[n]})
+				mapping[n] = "sub." + n + "_0"
+			}
+			r := rng.Fork()
+			var recs []execution.Record
+			for k := 0; k < 3; k++ {
+				vs := make([]octosql.Value, len(order))
+				for i, n := range order {
+					vs[i] = exprh.GenOfType(r, ftypes[n], true)
+				}
+				recs = append(recs, execution.NewRecord(vs, false, time.Time{}))
+			}
+			return &memSource{fields: fields, mapping: mapping, records: recs}
+		}
+		q := func(*exprh.Env) logical.Expression { return logical.NewQueryExpression(mk()) }
+		cases = append(cases, objCase{what: "subquery (SELECT " + strings.Join(order, ", ") + ")", build: q})
+		for _, idx := range []int64{0, 2, 7} {
+			idx := idx
+			at := func(env *exprh.Env) logical.Expression {
+				return logical.NewFunctionExpression("[]", []logical.Expression{q(env), logical.NewConstant(octosql.NewInt(idx))})
+			}
+			cases = append(cases, objCase{what: fmt.Sprintf("subquery (SELECT %s)[%d]", strings.Join(order, ", "), idx), build: at})
+			for _, f := range order {
+				cases = append(cases, objCase{what: fmt.Sprintf("subquery (SELECT %s)[%d]->%s", strings.Join(order, ", "), idx, f), build: access(at, f)})
+			}
+		}
+	}
+
+	// 3. COALESCE over objects / lists of objects / tuples of objects whose shapes differ at some depth
+	small, big := st("x", F), st("x,y", F, nullable(S))
+	pairs := [][2]octosql.Type{
+		{st("p,q", small, S), st("p,q", big, S)}, // same top-level names, nested object differs
+		{st("p,q", big, S), st("p,q", small, S)},
+		{exprh.ListOf(small), exprh.ListOf(big)},                             // lists of objects
+		{st("l,q", exprh.ListOf(small), S), st("l,q", exprh.ListOf(big), S)}, // object holding a list of objects
+		{st("a", I), st("b", S)},                                             // disjoint fields
+		{st("a,b", I, S), st("b,a", S, I)},                                   // same fields, other order
+		{st("a,b", I, S), st("a,b,c", I, S, B)},                              // one more field
+		{st("p", st("q", small)), st("p", st("q", big))},                     // difference two levels down
+		{exprh.TupleOf(small, I), exprh.TupleOf(big, I)},                     // tuples of objects
+		{st("a", I), I}, // object or scalar
+	}
+	for pi, pr := range pairs {
+		for _, firstNullable := range []bool{false, true} {
+			for _, swap := range []bool{false, true} {
+				a, b := pr[0], pr[1]
+				if swap {
+					a, b = b, a
+				}
+				t0 := a
+				if firstNullable {
+					t0 = nullable(a)
+				}
+				cases = append(cases, objCase{what: fmt.Sprintf("coalesce pair %d (first nullable %v, swapped %v): COALESCE(c0, c1)", pi, firstNullable, swap),
+					types: []octosql.Type{t0, b},
+					build: func(env *exprh.Env) logical.Expression {
+						return logical.NewCoalesce([]logical.Expression{env.Var(0), env.Var(1)})
+					}})
+			}
+		}
+		// and the nested field of the coalesced object, where there is one
+		if pi <= 1 {
+			cases = append(cases, objCase{what: fmt.Sprintf("coalesce pair %d then ->p->x", pi), types: []octosql.Type{nullable(pr[0]), pr[1]},
+				build: access(func(env *exprh.Env) logical.Expression {
+					return logical.NewCoalesce([]logical.Expression{env.Var(0), env.Var(1)})
+				}, "p", "x")})
+		}
+	}
+
+	// 4. list indexing and tuples
+	for _, lt := range []octosql.Type{exprh.ListOf(st("b,a", S, F)), exprh.ListOf(nullable(I)), nullable(exprh.ListOf(S)), exprh.ListOf(exprh.ListOf(I))} {
+		for _, idx := range []int64{0, 1, 3} {
+			idx := idx
+			cases = append(cases, objCase{what: fmt.Sprintf("index c0[%d]", idx), types: []octosql.Type{lt},
+				build: func(env *exprh.Env) logical.Expression {
+					return logical.NewFunctionExpression("[]", []logical.Expression{env.Var(0), logical.NewConstant(octosql.NewInt(idx))})
+				}})
+		}
+		cases = append(cases, objCase{what: "index c0[c1]", types: []octosql.Type{lt, nullable(I)},
+			build: func(env *exprh.Env) logical.Expression {
+				return logical.NewFunctionExpression("[]", []logical.Expression{env.Var(0), env.Var(1)})
+			}})
+	}
+	for _, tt := range [][]octosql.Type{{I, S}, {nullable(I), st("b,a", S, F)}, {F}} {
+		tt := tt
+		cases = append(cases, objCase{what: "tuple (c0, ...)", types: tt,
+			build: func(env *exprh.Env) logical.Expression {
+				as := make([]logical.Expression, len(tt))
+				for i := range as {
+					as[i] = env.Var(i)
+				}
+				return logical.NewTuple(as)
+			}})
+	}
+	for _, oc := range cases {
+		g.objectCase(rng.Fork(), oc, nrows)
+	}
+}
+
 // ---- random expressions ----
 var columnPool = []octosql.Type{
 	octosql.Int, octosql.TypeSum(octosql.Int, octosql.Null), octosql.TypeSum(octosql.Float, octosql.Null), octosql.Boolean,
@@ -795,6 +1027,7 @@ func main() {
 		g.compositionSweep(rng.Fork(), 4, 5)
 		g.aggregateSlice(rng.Fork(), 1)
 	}
+	g.objectSlice(rng.Fork(), 4)
 	n := f.Cases(300, 6000)
 	for i := 0; i < n; i++ {
 		r := rng.Fork()
